@@ -364,7 +364,17 @@ def main():
         if p.returncode != 0 and not shard_viol and not j.get("aborted"):
             # the process died without recording a violation
             crash = re.search(r"^(panic: .*|fatal error: .*)$", logtxt, re.M)
-            if crash and pcfg.get("crash_is_violation") and not timed_out and "VERIF-HARNESS" not in logtxt:
+            # A crash counts for every check when the frame that panicked is netpoll's own code (the first frame
+            # below the runtime's in the crashing goroutine); where the configuration says so, any crash counts.
+            in_netpoll = False
+            if crash:
+                tail = logtxt[crash.start():]
+                for fr in re.findall(r"^\t(/\S+\.go):\d+", tail, re.M):
+                    if "/usr/lib/go" in fr or "/src/runtime/" in fr or "/go/pkg/mod/" in fr or "/opt/veriftools/" in fr:
+                        continue
+                    in_netpoll = fr.startswith(REPO + "/") and "zz_verif_" not in fr and "/internal/verifsched/" not in fr
+                    break
+            if crash and (pcfg.get("crash_is_violation") or in_netpoll) and not timed_out and "VERIF-HARNESS" not in logtxt:
                 cur = os.path.join(sdir, "current_case.json")
                 violations.append({"property": prop, "slot": "crash", "signature": "process-crash", "shard": s,
                                    "message": crash.group(1) + " (process-killing failure; see log)",
